@@ -106,6 +106,26 @@ theorem buffer_hands_read_area (g : Nat → Nat → Nat) (hg : ∀ n c, n ≤ g 
       simp [upd, Buf.null]
   · rw [readArea_eq]; simpa [upd] using toList_of_owns (G2.buf b).1
 
+/-- ownership transfer without copying: converting buffer `b` into register `r` allocates nothing (`next` unchanged) and the
+vector's storage *is* the buffer's block, with the buffer's capacity and the read area as contents (`buffer_hands_read_area`) -/
+theorem to_raw_vector_transfers_storage (g : Nat → Nat → Nat) {st st2 : St} {ret : Option Nat} (r b : Nat)
+    (he : step g st (.ctorBuf r b) = .ok (st2, ret)) :
+    st2.heap.next = st.heap.next ∧ (st2.vec r).base = (st.buf b).base ∧ (st2.vec r).last = (st.buf b).readEnd ∧
+      (st2.vec r).cap = (st.buf b).cap ∧ st2.buf b = Buf.null := by
+  simp only [step, bind_eq_ok, pure_eq_ok, Except.ok.injEq, Prod.mk.injEq] at he
+  obtain ⟨h1, hd, rfl, _⟩ := he
+  refine ⟨?_, by simp [upd, toRawVector, Buf.release], by simp [upd, toRawVector, Buf.release],
+    by simp [upd, toRawVector, Buf.release], by simp [upd, toRawVector, Buf.release]⟩
+  simp only [deallocate] at hd
+  split at hd
+  · simp only [Except.ok.injEq] at hd; rw [← hd]
+  · simp only [Heap.free] at hd
+    split at hd
+    · cases hd
+    · split at hd
+      · simp only [Except.ok.injEq] at hd; rw [← hd]; rfl
+      · cases hd
+
 /-- No leak, no double free: after any valid history, running the destructors of all registers succeeds
 (each block is freed exactly once, with the size it was allocated with) and leaves no live allocation.
 (`hv`/`hb`: registers the history never used still hold null pointers; the driver uses 3 + 2 registers.) -/
